@@ -35,7 +35,7 @@ def unit_order(text):
     return list(set(unit for utt in text for unit in utt.split()))
 
 
-def segment_case(ck, text_units, nfolds, njobs, family, plan=None, raw_text=None):
+def segment_case(ck, text_units, nfolds, njobs, family, plan=None, raw_text=None, folds_only=False):
     text = raw_text if raw_text is not None else gens.lines(text_units)
     order = unit_order(text)
     cap = CAP
@@ -55,10 +55,13 @@ def segment_case(ck, text_units, nfolds, njobs, family, plan=None, raw_text=None
                 outputs.append(open(p, encoding='utf8').read().split('\n') if os.path.exists(p) else None)
         # what the program really received (whatever the model thinks): first line of every fold
         first_lens = []
+        sent = []
         for fn in os.listdir(cap):
             if fn.endswith('.in'):
                 fl = open(os.path.join(cap, fn), encoding='utf8').read().split('\n')
                 first_lens.append(len(fl[0]) if fl else 0)
+                sent.extend(fl)
+        sent_chars = set(''.join(sent))
     finally:
         json.dump({}, open(PLAN, 'w'))
     desc = {'text': text, 'nfolds': nfolds, 'njobs': njobs, 'family': family, 'plan': plan}
@@ -76,7 +79,23 @@ def segment_case(ck, text_units, nfolds, njobs, family, plan=None, raw_text=None
             return 'a fold handed to the program starts with a one-symbol line'
         if out[0] == 'raise':
             return None
+        # the recoding: one code point per distinct unit, none of them whitespace
+        if any(ch.isspace() for ch in sent_chars):
+            return 'the recoded text handed to the program contains the whitespace code point(s) %r' % sorted(ch for ch in sent_chars if ch.isspace())
+        if len(sent_chars) != len(order):
+            return 'the recoding is not injective: %d distinct units sent as %d distinct code points' % (len(order), len(sent_chars))
         return gens.aligned([l.split() for l in text], out[1])
+    if folds_only:
+        # thousands of distinct units: the model's decoding step (op 304) is cubic in the number of units, so the
+        # correspondence is on what is sent to the program (recoding, repair, folding: op 303) and the oracle is
+        # applied to the implementation's result as everywhere else
+        sent_folds = sorted(open(os.path.join(cap, fn), encoding='utf8').read().split('\n')[:-1] for fn in os.listdir(cap) if fn.endswith('.in'))
+        c = dict(op=303, arg=[text2j(text), text2j(order), nfolds], site='dpseg.segment', desc=desc,
+                 impl=(lambda: ('ok', (sent_folds, res))),
+                 dec=lambda w: decode_result(w, lambda v: sorted([''.join(chr(ch) for ch in l) for l in fold] for fold in v[0])),
+                 eq=lambda m, i: (m == i[1][1]) if m[0] == 'raise' else (i[1][1][0] == 'ok' and m[1] == i[1][0]),
+                 oracle=lambda out: oracle(out[1][1]), nontrivial=lambda m: True)
+        return desc, c, res, None
     c = dict(op=304, arg=[text2j(text), text2j(order), nfolds, [text2j(o) for o in outputs] if mf[0] == 0 else []], site='dpseg.segment', desc=desc,
              impl=(lambda res=res: res), dec=lambda w: decode_result(w, j2text), oracle=oracle,
              nontrivial=lambda m: m[0] == 'raise' or any(' ' in u for u in m[1]))
@@ -121,6 +140,39 @@ def main():
                     return None
                 cases.append(dict(op=302, arg=[text2j(text), b0], site='dpseg._dpseg_bugfix', desc={'lengths': list(lens), 'nfolds': k, 'family': 'bugfix'},
                                   impl=impl, dec=decode_result, oracle=oracle, nontrivial=lambda m: True))
+    # 2b. the repair step on boundary vectors that folding.boundaries does not produce: every strictly increasing
+    # vector starting at 0 for n <= nfree lines, random ones beyond
+    nfree = 5
+    def free_case(lens, b0):
+        text = ['x' * l for l in lens]
+
+        def impl(text=text, b0=b0):
+            return call_impl(dpseg._dpseg_bugfix, list(text), list(b0))
+
+        def oracle(out, text=text, k=len(b0)):
+            if out[0] == 'raise':
+                return None if out[1] == 'ValueError' else 'bugfix raised ' + out[1]
+            b = out[1]
+            if len(b) != k or any(x >= y for x, y in zip(b, b[1:])) or b[0] != 0 or b[-1] >= len(text):
+                return 'repaired boundaries are not %d strictly increasing line indices starting at 0' % k
+            if any(len(text[i]) < 2 for i in b):
+                return 'a repaired fold still starts with a one-symbol line'
+            return None
+        return dict(op=302, arg=[text2j(text), list(b0)], site='dpseg._dpseg_bugfix', desc={'lengths': list(lens), 'boundaries': list(b0), 'family': 'bugfix-free-vector'},
+                    impl=impl, dec=decode_result, oracle=oracle, nontrivial=lambda m: True)
+    for n in range(1, nfree + 1):
+        for lens in itertools.product([1, 2, 3], repeat=n):
+            std = {tuple(folding.boundaries(['x' * l for l in lens], k)) for k in range(1, n + 1)}
+            for r in range(0, n):
+                for rest in itertools.combinations(range(1, n), r):
+                    b0 = (0,) + rest
+                    if b0 not in std:
+                        cases.append(free_case(lens, b0))
+    for _ in range(3000 if ck.thorough else 300):
+        n = rng.randint(nfree + 1, 14)
+        lens = [rng.choice([1, 1, 2, 3, 5]) for _ in range(n)]
+        b0 = [0] + sorted(rng.sample(range(1, n), rng.randint(0, n - 1)))
+        cases.append(free_case(lens, b0))
     # 3. the wrapper with a contract-abiding stand-in
     nseg = 300 if ck.thorough else 40
     alphas = [['a', 'b', 'c'], ['uː', 'dʒ', 'ʌ', 'ŋ'], ['aa', 'b', 'ch'], gens.ALPHABETS['wide']]
@@ -128,8 +180,28 @@ def main():
         alpha = alphas[k % 4]
         tu, _ = gens.random_text(rng, alpha if len(alpha) < 50 else rng.sample(alpha, 40), nutts=rng.randint(1, 12), max_words=3)
         nfolds = rng.randint(1, len(tu))
-        njobs = 1 if k % 5 else rng.randint(2, 4)
+        njobs = 1 if k % 2 else rng.randint(2, 4)
+        ck.count('segment_njobs:%d' % njobs)
         desc, c, res, err = segment_case(ck, tu, nfolds, njobs, 'contract-ok')
+        if err:
+            bad.append((desc, err))
+        elif c:
+            cases.append(c)
+    # 3b. thousands of distinct units: the recoding walks over the whitespace code points U+1680, U+2000-200A,
+    # U+2028/2029/202F/205F (and U+3000 in the thorough tier)
+    for nunits, nf, nj in ([(5600, 3, 2), (9500, 1, 1), (4000, 7, 3)] if ck.thorough else [(5600, 3, 2)]):
+        units = ['u%d' % i for i in range(nunits)]
+        rng.shuffle(units)
+        tu, i = [], 0
+        while i < nunits:
+            m = rng.randint(1, 6)
+            tu.append(units[i:i + m])
+            i += m
+        tu = [tu[0] + tu[1]] + tu[2:]        # the first line has at least two units
+        for _ in range(20):
+            tu.insert(rng.randint(1, len(tu)), list(rng.choice(tu)))      # repeated lines
+        desc, c, res, err = segment_case(ck, tu, nf, nj, 'contract-ok-%d-units' % nunits, folds_only=True)
+        desc['text'] = '%d utterances over %d distinct units u0..u%d (shuffled, seed %d)' % (len(tu), nunits, nunits - 1, ck.seed)
         if err:
             bad.append((desc, err))
         elif c:
@@ -153,8 +225,8 @@ def main():
     n, problems = ck.coq_recheck()
     finish_proof_failures(ck, failures + problems)
     return ck.finish(
-        rule='%d consecutive outputs of UnicodeGenerator; _dpseg_bugfix on every line-length vector in {1,2,3}^n (n <= 5 exhaustively, sampled up to %d) x every fold count; '
-             '%d runs of the real dpseg.segment (random corpora over 4 alphabets incl. hundreds of distinct units, nfolds 1..len, njobs 1-4) on a contract-abiding stand-in whose per-fold '
+        rule='%d consecutive outputs of UnicodeGenerator; _dpseg_bugfix on every line-length vector in {1,2,3}^n (n <= 5 exhaustively, sampled up to %d) x every fold count, and on every other strictly increasing boundary vector starting at 0 (n <= 5 exhaustively, random vectors up to 14 lines); '
+             '%d runs of the real dpseg.segment (random corpora over 4 alphabets incl. hundreds of distinct units, nfolds 1..len, njobs 1-4 (half of the runs with several jobs), plus a corpus with thousands of distinct units whose recoding crosses the whitespace code points) on a contract-abiding stand-in whose per-fold '
              'outputs are captured and fed to the model; contract-breaking stand-ins and malformed inputs as correspondence. Non-trivial = boundary placed or error.' % (ngen, nmax, nseg),
         assumptions=['the dpseg program itself cannot be built here (no Boost): its contract (same lines, in order, only U+0020 inserted) is assumed by the theorems and realised by the stand-in',
                      'the iteration order of the Python set of units is a parameter of the model (read back from the same process)'])
